@@ -60,7 +60,15 @@ def prepare_scratch(groups):
                 raise vxlib.LostAnchor(f'{rel} not found (group {g})')
             txt = touched.get(rel) or open(p).read()
             modname = 'vx_kani_' + os.path.splitext(os.path.basename(harness_file))[0]
-            line = f'\n#[cfg(kani)]\n#[path = "{os.path.join(KANI_DIR, harness_file)}"]\npub(crate) mod {modname};\n'
+            # the harness module is COPIED into the scratch tree: `--concrete-playback=inplace` rewrites the file that holds
+            # the failing harness, and that must never be the committed file under /verif/kani
+            hdir = os.path.join(d, 'vx_kani_harnesses')
+            os.makedirs(hdir, exist_ok=True)
+            hcopy = os.path.join(hdir, harness_file)
+            new_txt = open(os.path.join(KANI_DIR, harness_file)).read()
+            if not os.path.exists(hcopy) or open(hcopy).read() != new_txt:
+                open(hcopy, 'w').write(new_txt)
+            line = f'\n#[cfg(kani)]\n#[path = "{hcopy}"]\npub(crate) mod {modname};\n'
             if line not in txt:
                 txt += line
                 added += 4
